@@ -515,3 +515,10 @@ package dataflow
 // the end of the iteration. Checked by a scan of every store in /repo.
 //@ property C01 C02 C03 C05 C13
 //@ immutable VisitorNode.NodeWithTrace.Node VisitorNode.NodeWithTrace.Trace VisitorNode.NodeWithTrace.ClosureTrace VisitorNodeStatus.Kind VisitorNode.Prev VisitorNode.Depth
+
+// Assumed: the key of a visitor node is computed from the node without side effects
+// (it calls LongID/Key of the graph node and traces through interfaces).
+//@ func VisitorNode.Key
+//@   property C13
+//@   assumed
+//@   modifies nothing
